@@ -4,12 +4,12 @@ sys.path.insert(0, os.path.join(os.path.dirname(os.path.abspath(__file__)), '..'
 from go2v_hook import go2v_hook
 CONF = {
     'pre': [go2v_hook],
-    'interesting': ['odd-length', 'carry-out-of-16', 'csum-0000', 'csum-ffff', 'udp-zero-rule', 'flip-in-checksum-field'],
-    'rule': 'Helper ops (FoldChecksum on boundary and random accumulators, ComputeChecksum on byte strings with boundary initial sums, lengths around 131070) and packet scenarios for each of UDP/TCP/ICMPv4/ICMPv6/IPv4-header/GRE x pseudo-header IPv4/IPv6 x checksum class {0x0000,0xffff,0x0001,0xfffe,random} (tails solved) x odd/even x four size classes plus payloads up to 70000 bytes: serialize with FixLengths+ComputeChecksums and compare the field with the model; decode and VerifyChecksum (directly and through NewPacket + SetNetworkLayerForChecksum + Packet.VerifyChecksums); every single-bit flip of packets <= 56 bytes and selected flips of larger ones; stored-value variants (0, 0xffff, +1, complement); truncated and random byte strings.',
+    'interesting': ['reused-buffer', 'odd-length', 'carry-out-of-16', 'csum-0000', 'csum-ffff', 'udp-zero-rule', 'flip-in-checksum-field'],
+    'rule': 'Helper ops (FoldChecksum on boundary and random accumulators, ComputeChecksum on byte strings with boundary initial sums, lengths around 131070) and packet scenarios for each of UDP/TCP/ICMPv4/ICMPv6/IPv4-header/GRE x pseudo-header IPv4/IPv6 x checksum class {0x0000,0xffff,0x0001,0xfffe,random} (tails solved) x odd/even x four size classes plus payloads up to 70000 bytes: serialize with FixLengths+ComputeChecksums and compare the field with the model; decode and VerifyChecksum (directly and through NewPacket + SetNetworkLayerForChecksum + Packet.VerifyChecksums); every single-bit flip of packets <= 56 bytes and selected flips of larger ones; stored-value variants (0, 0xffff, +1, complement); truncated and random byte strings. Sequences of three packets are serialized into ONE reused SerializeBuffer, also one pre-filled with 0xaa/0xff/0x01 (tags reused-buffer, dirty-buffer), for all six emitters, plus targeted GRE flag combinations (checksum+ack, checksum+routing(+ack), key+seq, all) with non-zero field values.',
     'shrink_keep_first': 0,
     'assumptions': ['bytes are integers in [0,256); Go uint32 arithmetic is arithmetic mod 2^32',
                     'lengths < 2^32 (len() converted to uint32 in computeChecksum)',
                     'TCP option kind 30 (MPTCP) is outside the modelled decoder (generators keep it out, also under single-bit flips)'],
     'trusted_base': ['model: coq/Model/C08Model.v is a hand transcription of checksum.go:34-58, layers/tcpip.go:26-69 and the checksum emission / region-determining decode / VerifyChecksum parts of ip4.go, tcp.go, udp.go, icmp4.go, icmp6.go, gre.go'],
-    'explanation': 'Props/C08.v proves FoldChecksum = 65535 - oc for all 2^32 accumulators, ComputeChecksum = (c + wordsum) mod 2^32, agreement with RFC 1071 below the accumulator-wrap bound (and refutes it beyond), emitted = reference per layer, VerifyChecksum characterised for every input (Correct = the value the emitter writes over the covered region, Valid = equality with the stored field, UDP/GRE exceptions), verification accepts emitted packets, and single-bit flips are reported; the correspondence run ties the model to the Go code.',
+    'explanation': 'Junk in the checksum field position: the emitters of the model zero the field themselves and C08_emit_junk_free_* prove the result independent of what was there; independence of the other serialized bytes from buffer leftovers is C07 (C07_<layer>_junk_free), on which the byte-level hypotheses of C08_emit_* rely. Props/C08.v proves FoldChecksum = 65535 - oc for all 2^32 accumulators, ComputeChecksum = (c + wordsum) mod 2^32, agreement with RFC 1071 below the accumulator-wrap bound (and refutes it beyond), emitted = reference per layer, VerifyChecksum characterised for every input (Correct = the value the emitter writes over the covered region, Valid = equality with the stored field, UDP/GRE exceptions), verification accepts emitted packets, and single-bit flips are reported; the correspondence run ties the model to the Go code.',
 }
